@@ -201,7 +201,8 @@ class PeerCase:
         self.stop = False
         for i, s in enumerate(sessions):
             fam = socket.AF_INET6 if s.get("ip6") else socket.AF_INET
-            addr = "::1" if s.get("ip6") else "127.0.0.%d" % (1 + i % 200)
+            # (addr_off: most sessions are served at an address that is not the one the client's connection comes from)
+            addr = "::1" if s.get("ip6") else "127.0.0.%d" % (1 + (i + s.get("addr_off", 0)) % 200)
             ls = socket.socket(fam, socket.SOCK_STREAM)
             ls.setsockopt(socket.SOL_SOCKET, socket.SO_REUSEADDR, 1)
             ls.bind((addr, 0))
